@@ -66,6 +66,14 @@ func permutedTwin(t *rapid.T, c *gen.DocCase) (*jsonapi.Document, *jsonapi.URL, 
 		doc.Meta = nil
 	}
 
+	// (the twin has its own map of links, holding the same links)
+	if c.Doc.Links != nil {
+		doc.Links = map[string]jsonapi.Link{}
+		for k, v := range c.Doc.Links {
+			doc.Links[k] = v
+		}
+	}
+
 	if c.Doc.Resources != nil {
 		doc.Resources = map[string]map[string]struct{}{}
 		for k, v := range c.Doc.Resources {
@@ -358,6 +366,23 @@ func TestC11Deterministic(t *testing.T) {
 			}
 
 			c.Included, c.Doc.Included = inc, docInc
+		}
+
+		// Links of the caller's own at the top level: absolute ones and paths,
+		// which are written as they are.
+		if rapid.IntRange(0, 3).Draw(t, "doclinks") == 0 {
+			c.Doc.Links = map[string]jsonapi.Link{}
+
+			for _, name := range rapid.SliceOfNDistinct(rapid.SampledFrom([]string{"related", "next", "prev", "about", "self"}), 0, 3, rapid.ID[string]).Draw(t, "doclinks-names") {
+				l := jsonapi.Link{HRef: rapid.SampledFrom([]string{"/t?page%5Bnumber%5D=2", "/", "https://h/t/1", "", "//h/x", "t/1", "/a b"}).Draw(t, "doclinks-href")}
+				if rapid.IntRange(0, 3).Draw(t, "doclinks-meta") == 0 {
+					l.Meta = gen.JSONObject(t, "doclinks-meta-value", 1, 2)
+				}
+
+				c.Doc.Links[name] = l
+			}
+
+			r.Label("doc-links")
 		}
 
 		doc2, url2, changed := permutedTwin(t, c)
